@@ -64,6 +64,16 @@ var commonAssume = []string{
 }
 
 var props = map[string]*propCfg{
+	"C13": {
+		Title:    "output ordering is a deterministic function of the aggregated data (order-independence clauses)",
+		Quick:    tierCfg{Runs: 1000, Chunk: 32, DetRuns: 24, ShrinkSec: 90},
+		Thorough: tierCfg{Runs: 50000, Chunk: 400, DetRuns: 128, ShrinkSec: 300},
+		Rule: "one evaluation = one scenario: a multiset of 2-8 (key, count) drawn from pools that stress the comparators (numbers in several spellings, weekday/month names and abbreviations, dates in several layouts, text, mixtures), one of histo/table/bars and one sort mode of {text, numeric, contextual, date, value} x {none, :asc, :desc, :reverse}, run in-process under 4-6 variants that change only the map-iteration salt, the arrival order of lines, schedule and worker count, division among files and read latencies (number of intermediate renders on the fake clock), plus one run with the reversed and one with the equivalent spelling; the row/column label sequences of the final snapshots must agree (or mirror); " +
+			"distinct_nontrivial = distinct combined schedule hashes among scenarios with >= 2 goroutines runnable at >= 1 decision",
+		Real:  []string{"main.cliMain + urfave/cli", "cmd/histo|tabulate|bargraph", "cmd/helpers/sorting.go", "pkg/aggregation/sorting", "pkg/aggregation", "pkg/multiterm renderers", "pkg/extractor + batchers"},
+		Stubs: []string{"goroutine scheduling (tape)", "clock (synctest fake clock)", "Go map iteration order in rare's packages (tape-salted permutation)", "stdin (scripted reader)", "read chunking/latency (fs seam)"},
+		Assume: []string{"only the order-independence clauses are decided (same data => same order; :reverse mirrors; equivalent spellings agree); that `numeric` means magnitude, `contextual` calendar position, `date` chronological and `value` larger-first is pure and not decided here"},
+	},
 	"C03": {
 		Title:    "final aggregates equal the reference aggregation, independent of parallelism",
 		Quick:    tierCfg{Runs: 1200, Chunk: 40, DetRuns: 24, ShrinkSec: 90},
